@@ -37,6 +37,26 @@ pub fn fam_for(tier: Tier, prop: &str) -> Vec<CaseSpec> {
         weights_per: tier.pick(1, 2),
         all_masses_up_to_e: tier.pick(3, 3),
     });
+    // vertex labels are arbitrary u8: a few small graphs with labels that collide under mod-64 / mod-128 bit tricks
+    for (topo, ext) in [
+        (vec![(5u8, 69u8), (5, 69)], vec![5u8, 69]),
+        (vec![(5, 69), (69, 133), (133, 5)], vec![5, 69, 133]),
+        (vec![(0, 64), (0, 64), (0, 64)], vec![0, 64]),
+        (vec![(255, 127), (255, 127), (127, 191)], vec![255, 191]),
+    ] {
+        let ne = topo.len();
+        for massive in [vec![false; ne], vec![true; ne]] {
+            for d in [3usize, 4] {
+                for w in [1.0, 0.75, 1.25, 1.5, d as f64] {
+                    let g = crate::scope::mk(&topo, &massive, &vec![w; ne], &ext, d);
+                    if admissible(&g) {
+                        v.push(CaseSpec { g, mom_variant: d % 2, mass_variant: 0, label: "named".into() });
+                        break;
+                    }
+                }
+            }
+        }
+    }
     if tier == Tier::Quick {
         // a few larger named graphs in the quick tier as well: kite (2 loops, 5 edges), 3-loop banana
         let extra = family(&FamOpts {
@@ -722,6 +742,15 @@ pub fn c10_point(case: &Case, r: &Routed, po: &PointObs, _nd: usize, acc: &mut A
         }
     }
     let _ = mat_q;
+    // the same momenta on the production path (no metadata, no debug output): bit-identical
+    let plain = r.sampler.sample(&po.x, &r.ed, &Settings::DEFAULT);
+    acc.inc("production_path_compared");
+    match &plain {
+        Outcome::Ok(p2) if core_bits(p2) == core_bits(s) => {}
+        other => {
+            viol(acc, "C10", "same momenta with and without metadata / debug output", case, r, po, &st, format!("default settings give {} with different loop momenta / u / v / jacobian than the metadata run", other.kind()));
+        }
+    }
 }
 
 impl Routed {
@@ -1109,6 +1138,51 @@ pub fn run_simple(ctx: &Ctx) -> i32 {
         _ => unreachable!(),
     };
     let mut acc = explore(&plan, f);
+    if prop == "C13" {
+        // each component is computed FROM its pair in the caller's scalar type: dependence sets of a tracking scalar
+        // (a detour through f64 is bit-identical for f64 callers and would be invisible above)
+        use crate::scalar::{probe_reset, Tr};
+        let t = par_for(plan.cases.len(), |i, acc| {
+            let case = match Case::new(&plan.cases[i]) {
+                Some(c) => c,
+                None => return,
+            };
+            let r = match route(&case, &case.base_kin()) {
+                Ok(r) => r,
+                Err(_) => return,
+            };
+            let order: Vec<usize> = (0..case.g.ne()).collect();
+            let x = sector_defaults(&case, &order);
+            let xs: Vec<Tr> = x.iter().enumerate().map(|(k, &v)| Tr::new(v, 1u128 << k)).collect();
+            let ed: EdgeData<Tr> = r.ed.iter().map(|(m, p)| (m.map(|m| Tr::new(m, 0)), p.iter().map(|&c| Tr::new(c, 0)).collect())).collect();
+            probe_reset();
+            if let Outcome::Ok(s) = r.sampler.sample_with(&xs, &ed, &Settings::META, &NullLogger) {
+                if let Some(m) = &s.meta {
+                    let tail = 2 * case.g.ne() - 1;
+                    let d = case.g.dim;
+                    for l in 0..case.nl {
+                        for c in 0..d {
+                            let idx = l * d + c;
+                            let pair = tail + 2 * (idx / 2);
+                            let want = (1u128 << pair) | (1u128 << (pair + 1));
+                            acc.inc("dependence_sets_judged");
+                            if m.q_vectors[l][c].deps != want {
+                                acc.violate(
+                                    pkey("C13", "component computed from its own pair", &case, &x),
+                                    "each component is the Box-Muller transform OF its designated pair (in the caller's scalar type)",
+                                    format!("component {idx} depends on inputs {:#x}, expected exactly its pair {want:#x}", m.q_vectors[l][c].deps),
+                                    point_case(&case, &r.kin, &x, &Settings::META, json!({"prop": "C13"})),
+                                );
+                                return;
+                            }
+                        }
+                    }
+                }
+            }
+        });
+        acc.merge(t);
+        acc.violations.sort_by(|a, b| (a.key.as_str(), a.what.as_str()).cmp(&(b.key.as_str(), b.what.as_str())));
+    }
     if prop == "C08" || prop == "C09" {
         acc.merge(orbit_pass(ctx));
         acc.violations.sort_by(|a, b| (a.key.as_str(), a.what.as_str()).cmp(&(b.key.as_str(), b.what.as_str())));
